@@ -17,7 +17,20 @@ def main():
     ctx = Ctx(a.prop, a.tier, a.seed)
     if a.replay:
         sys.exit(mod.replay(ctx, a.replay))
-    sys.exit(mod.run(ctx))
+    try:
+        rc = mod.run(ctx)
+    except Exception as ex:          # the implementation did something no branch of the check expected while the last case ran
+        import traceback
+        from .core import write_replay
+        from . import pyenv
+        tb = traceback.format_exc()
+        path = write_replay(a.prop, dict(property=a.prop, kind='unexpected-exception', case=ctx.last_case, seed=a.seed, tier=a.tier,
+                                         what=f'{pyenv.errname(ex)}: {ex}', traceback=tb[-3000:]))
+        print(tb[-1500:])
+        print(f'VIOLATION property={a.prop} replay={path}')
+        print(f'{a.prop} {a.tier}: the check was interrupted by {pyenv.errname(ex)} raised while the case in the replay file ran')
+        rc = 1
+    sys.exit(rc)
 
 
 if __name__ == '__main__':
